@@ -233,6 +233,7 @@ func drawKeySetSpec(t *rapid.T, maxN int) keySetSpec {
 	}
 	if sp.n > maxN {
 		sp.n = maxN
+		sp.sizeClass = fmt.Sprintf("n<=%d(capped)", maxN)
 	}
 	if sp.n <= 70 {
 		sp.style = smallStyles[rapid.IntRange(0, len(smallStyles)-1).Draw(t, "style")]
